@@ -147,14 +147,16 @@ KF_C16_cleanup_error_no_step(m, f) ==
       /\ FirstWith(m.steps[s], ErrorStatuses) = 0
 
 \* the test cases are exactly the feature's scenarios -- skipped ones iff shown -- each once, in document order
-Expected(m, cfg, f) == SelectSeq(DocScenarios(m, f), LAMBDA s : m.status[s] # "skipped" \/ cfg.show)
+\* (scs = DocScenarios(m, f), computed once per feature)
+ExpectedOf(m, cfg, scs) == SelectSeq(scs, LAMBDA s : m.status[s] # "skipped" \/ cfg.show)
+Expected(m, cfg, f) == ExpectedOf(m, cfg, DocScenarios(m, f))
 Got(doc) == [k \in DOMAIN doc.cases |-> doc.cases[k].el]
-TestcasesClause(m, cfg, f, doc) ==
-   LET exp == Expected(m, cfg, f)
+TestcasesClause(m, cfg, f, scs, doc) ==
+   LET exp == ExpectedOf(m, cfg, scs)
        got == Got(doc) IN
    IF got = exp THEN {}
    ELSE {<<"C16.testcases",
-           CASE \E k \in DOMAIN got : got[k] \notin SeqSet(DocScenarios(m, f)) -> "unknown"
+           CASE \E k \in DOMAIN got : got[k] \notin SeqSet(scs) -> "unknown"
              [] SeqSet(exp) \ SeqSet(got) # {} -> "missing"
              [] SeqSet(got) \ SeqSet(exp) # {} -> "extra"
              [] OTHER -> "order_or_duplicate", f>>}
@@ -191,8 +193,8 @@ CountersClause(doc) ==
    \cup (IF doc.skipped # Count(doc.cases, "skipped") THEN {<<"C16.counters", "skipped", 0>>} ELSE {})
 
 \* the first test case of each scenario of the feature is judged against that scenario
-Judged(m, f, doc) == {k \in DOMAIN doc.cases : /\ doc.cases[k].el \in SeqSet(DocScenarios(m, f))
-                                              /\ \A j \in 1..(k - 1) : doc.cases[j].el # doc.cases[k].el}
+Judged(scset, doc) == {k \in DOMAIN doc.cases : /\ doc.cases[k].el \in scset
+                                                /\ \A j \in 1..(k - 1) : doc.cases[j].el # doc.cases[k].el}
 \* obs = [crashed, doc] for a feature the reporter was called for
 Clauses(m, cfg, f, obs) ==
    IF obs.crashed
@@ -200,7 +202,8 @@ Clauses(m, cfg, f, obs) ==
    ELSE IF ~obs.doc.exists
    THEN (IF m.status[f] = "skipped" /\ ~cfg.show THEN {} ELSE {<<"C16.testcases", "no_document", f>>})
    ELSE IF ~obs.doc.wellformed THEN {}                    \* C16.wellformed's business (XmlEscape), nothing to read
-   ELSE TestcasesClause(m, cfg, f, obs.doc)
+   ELSE LET scs == DocScenarios(m, f) IN
+        TestcasesClause(m, cfg, f, scs, obs.doc)
         \cup CountersClause(obs.doc)
-        \cup UNION {StatusClause(m, cfg, obs.doc.cases[k]) \cup ProblemClause(m, obs.doc.cases[k]) : k \in Judged(m, f, obs.doc)}
+        \cup UNION {StatusClause(m, cfg, obs.doc.cases[k]) \cup ProblemClause(m, obs.doc.cases[k]) : k \in Judged(SeqSet(scs), obs.doc)}
 =============================================================================
